@@ -109,43 +109,62 @@ private theorem swapRemoveAt_mem {α : Type} (l : List α) (idx : Nat) (hi : idx
           simp [hi, hlk]
         exact List.mem_of_getElem? this
 
+private theorem swapRemoveAt_subset {α : Type} (l : List α) (idx : Nat) (x : α) (hx : x ∈ swapRemoveAt l idx) : x ∈ l := by
+  unfold swapRemoveAt at hx
+  cases hl : l.getLast? with
+  | none => rw [hl] at hx; simp at hx
+  | some last =>
+    rw [hl] at hx
+    simp only [] at hx
+    have h1 : x ∈ l.set idx last := (List.dropLast_sublist _).subset hx
+    rcases List.mem_or_eq_of_mem_set h1 with h | h
+    · exact h
+    · rw [h]; exact List.mem_of_getLast? hl
+
 /-! ### `connection_for_shard` -/
 
 /-- The fallback loop finds a connection whenever some shard still to be tried has one - for ALL random draws; what
-it returns is a pooled connection. -/
+it returns is a pooled connection. Every shard still to be tried indexes an existing bucket (`hin`), so the index
+`shard_conns[shard]` of the Rust is never out of bounds. -/
 private theorem tryShards_spec (buckets : List (List Conn)) (ρ : Nat → Nat × Nat) :
-    ∀ (fuel k : Nat) (toTry : List Nat), toTry.length ≤ fuel →
-      (∃ s ∈ toTry, buckets.getD s [] ≠ []) →
-      ∃ c s, tryShards buckets ρ fuel k toTry = some c ∧ c ∈ buckets.getD s [] := by
+    ∀ (fuel k : Nat) (toTry : List Nat), toTry.length ≤ fuel → (∀ s ∈ toTry, s < buckets.length) →
+      (∃ s ∈ toTry, ∃ bucket : List Conn, buckets[s]? = some bucket ∧ bucket ≠ []) →
+      ∃ (c : Conn) (s : Nat) (bucket : List Conn), tryShards buckets ρ fuel k toTry = some c ∧ buckets[s]? = some bucket ∧ c ∈ bucket := by
   intro fuel
   induction fuel with
   | zero =>
-    intro k toTry hlen ⟨s, hs, _⟩
+    intro k toTry hlen _ ⟨s, hs, _⟩
     have : toTry = [] := List.eq_nil_of_length_eq_zero (by omega)
     subst this; simp at hs
   | succ fuel ih =>
-    intro k toTry hlen ⟨s, hs, hne⟩
+    intro k toTry hlen hin ⟨s, hs, bk, hbk, hne⟩
     have hnn : toTry ≠ [] := by intro h; subst h; simp at hs
     have hpos : 0 < toTry.length := List.length_pos_iff.mpr hnn
     simp only [tryShards]
     rw [if_neg (by simpa using hnn)]
     have hidx : (ρ k).1 % toTry.length < toTry.length := Nat.mod_lt _ hpos
-    cases hc : chooseConn (buckets.getD (toTry.getD ((ρ k).1 % toTry.length) 0) []) (ρ k).2 with
-    | some c => exact ⟨c, _, rfl, chooseConn_mem hc⟩
+    have e : toTry.getD ((ρ k).1 % toTry.length) 0 = toTry[(ρ k).1 % toTry.length] := by
+      simp [List.getD_eq_getElem?_getD, hidx]
+    rw [e]
+    have hlt : toTry[(ρ k).1 % toTry.length] < buckets.length := hin _ (List.getElem_mem hidx)
+    rw [List.getElem?_eq_getElem hlt]
+    simp only []
+    cases hc : chooseConn buckets[toTry[(ρ k).1 % toTry.length]] (ρ k).2 with
+    | some c => exact ⟨c, _, _, rfl, List.getElem?_eq_getElem hlt, chooseConn_mem hc⟩
     | none =>
       simp only []
       have hempty := chooseConn_none hc
       apply ih
       · rw [swapRemoveAt_length _ _ hnn]; omega
+      · intro x hx
+        exact hin x (swapRemoveAt_subset _ _ x hx)
       · rcases swapRemoveAt_mem toTry _ hidx s hs with h | h
         · exfalso
           apply hne
-          rw [h]
-          have e : toTry.getD ((ρ k).1 % toTry.length) 0 = toTry[(ρ k).1 % toTry.length] := by
-            simp [List.getD_eq_getElem?_getD, hidx]
-          rw [e] at hempty
+          rw [h, List.getElem?_eq_getElem hlt] at hbk
+          cases hbk
           exact hempty
-        · exact ⟨s, h, hne⟩
+        · exact ⟨s, h, bk, hbk, hne⟩
 
 /-- **`connection_for_shard`, own bucket.** If the bucket of the requested shard holds a connection, the request
 travels on a connection OF THAT BUCKET, whatever the random choices. (`shard < 65536`: a `u16`; larger values are
@@ -182,16 +201,10 @@ theorem connection_for_shard_total (p : PoolConns) (hp : PoolOk p) (shard : Nat)
         rcases Nat.lt_or_ge i b.length with h | h
         · exact h
         · rw [List.getElem?_eq_none_iff.mpr h] at hib; cases hib
-      have hgetD : b.getD i [] = bucket := by
-        rw [List.getD_eq_getElem?_getD, hib]; rfl
-      obtain ⟨c, s', he, hm⟩ := tryShards_spec b ρ.tries s.nr 0 (List.range s.nr) (by simp)
-        ⟨i, List.mem_range.mpr (by omega), by rw [hgetD]; exact hne⟩
-      refine ⟨c, he, s', b.getD s' [], ?_, hm⟩
-      have : s' < b.length := by
-        rcases Nat.lt_or_ge s' b.length with h | h
-        · exact h
-        · rw [List.getD_eq_getElem?_getD, List.getElem?_eq_none_iff.mpr h] at hm; simp at hm
-      rw [List.getD_eq_getElem?_getD, List.getElem?_eq_getElem this]; rfl
+      obtain ⟨c, s', bk', he, hbk', hm⟩ := tryShards_spec b ρ.tries s.nr 0 (List.range s.nr) (by simp)
+        (by intro x hx; rw [hlen]; exact List.mem_range.mp hx)
+        ⟨i, List.mem_range.mpr (by omega), bucket, hib, hne⟩
+      exact ⟨c, he, s', bk', hbk', hm⟩
 
 /-- **The first attempt's connection is bound to the requested shard whenever the pool has one** - in terms of what
 the SERVER said: on a well-filed pool the connection returned for shard `shard` reports shard `shard` if the bucket is
@@ -352,18 +365,6 @@ private theorem inv_handleReady {rf rf' : Refiller} (h : Inv rf) (c : Conn) (req
         subst he
         exact inv_of hinv rfl rfl hinv.shared
 
-private theorem swapRemoveAt_subset {α : Type} (l : List α) (idx : Nat) (x : α) (hx : x ∈ swapRemoveAt l idx) : x ∈ l := by
-  unfold swapRemoveAt at hx
-  cases hl : l.getLast? with
-  | none => rw [hl] at hx; simp at hx
-  | some last =>
-    rw [hl] at hx
-    simp only [] at hx
-    have h1 : x ∈ l.set idx last := (List.dropLast_sublist _).subset hx
-    rcases List.mem_or_eq_of_mem_set h1 with h | h
-    · exact h
-    · rw [h]; exact List.mem_of_getLast? hl
-
 private theorem inv_removeConn {rf : Refiller} (h : Inv rf) (c : Conn) : Inv (rf.removeConn c) := by
   unfold Refiller.removeConn
   simp only []
@@ -463,6 +464,67 @@ example : (connectionForShard (.sharded ⟨3, 12⟩ [[], [cA], [cC]]) 2 ⟨5, fu
     (connectionForShard (.sharded ⟨3, 12⟩ [[], [cA], [cC]]) 7 ⟨5, fun _ => (2, 0)⟩).map (·.id) = some 2 ∧
     (connectionForShard (.sharded ⟨3, 12⟩ [[], [cA], [cC]]) 65538 ⟨0, fun _ => (0, 0)⟩).map (·.id) = some 2 := by decide
 example : ValidConn cA := by intro i h; cases h; decide
+
+/-! ### the pool adopts the sharder the node reports NOW (node restart with new sharding parameters) -/
+
+private theorem publish_sharder (rf : Refiller) : rf.publish.sharder = rf.sharder := by
+  unfold Refiller.publish
+  split
+  · rfl
+  · split <;> rfl
+
+private theorem maybeReshard_sharder (rf : Refiller) (new : Option SharderM) : (rf.maybeReshard new).sharder = new := by
+  unfold Refiller.maybeReshard
+  split
+  · assumption
+  · rfl
+
+/-- **After `handle_ready_connection` the refiller's sharder is the one this connection reports - shard count AND
+`SCYLLA_SHARDING_IGNORE_MSB`.** A node that restarts with the same shard count but another ignore-msb value (or
+becomes unsharded / sharded) is therefore not served with a stale sharder: whatever is published afterwards, and
+`Node::sharder()` with it, is computed from the node's current parameters. (End-to-end: the `rs=` histories of
+`e2e route`, harness/src/e2e/route.rs.) -/
+theorem handleReady_adopts_reported_sharder {rf rf' : Refiller} (c : Conn) (requested : Bool)
+    (he : rf.handleReady c requested = some rf') : rf'.sharder = sharderOf c := by
+  have hsh := maybeReshard_sharder rf (sharderOf c)
+  unfold Refiller.handleReady at he
+  simp only [] at he
+  cases hb : (rf.maybeReshard (sharderOf c)).conns[shardIdOf c]? with
+  | none => rw [hb] at he; cases he
+  | some bucket =>
+    rw [hb] at he
+    simp only [] at he
+    split at he
+    · simp only [Option.some.injEq] at he
+      subst he
+      rw [publish_sharder]
+      exact hsh
+    · split at he
+      · simp only [Option.some.injEq] at he
+        subst he
+        exact hsh
+      · simp only [Option.some.injEq] at he
+        subst he
+        exact hsh
+
+/-- ... and what the pool publishes next carries that sharder. -/
+theorem handleReady_publishes_reported_sharder {rf rf' : Refiller} (c : Conn) (requested : Bool)
+    (he : rf.handleReady c requested = some rf') (s : SharderM) (b : List (List Conn))
+    (hp : rf'.publish.shared = some (.sharded s b)) : some s = sharderOf c := by
+  have h := handleReady_adopts_reported_sharder c requested he
+  unfold Refiller.publish at hp
+  split at hp
+  · cases hp
+  · split at hp
+    · rename_i s' hs'
+      simp only [Option.some.injEq, PoolConns.sharded.injEq] at hp
+      rw [← h, hs', hp.1]
+    · cases hp
+
+-- non-vacuity: a 4-shard node restarts with the same count and ignore_msb 0 instead of 12 (old connections broke first)
+private def cD : Conn := ⟨3, some ⟨2, 4, 12⟩⟩
+private def cE : Conn := ⟨4, some ⟨1, 4, 0⟩⟩
+example : (((Refiller.init (.perShard 1)).run [.ready cD false, .broken cD, .ready cE false]).map (·.sharder)) = some (some ⟨4, 0⟩) := by decide
 
 /-! ## 2. Tables with tablets: the first attempt goes to a live replica of the covering tablet, with the tablet's shard -/
 
